@@ -511,6 +511,7 @@ type rCtx struct {
 	r    *mrand.Rand
 	rec  *recAgent
 	pair *rPair
+	kind int // >= 0: exported case run number; add-hardware-certificate cases walk every key type, plain and certificate
 }
 
 func (c *rCtx) ensure() {
@@ -674,6 +675,15 @@ func (c *rCtx) recOp(op string, a map[string]string) (lab rLabel, vr string) {
 			if a["comment"] == "" {
 				cm = ""
 			}
+			if c.kind >= 0 {
+				kp := verifh.PoolKey(20, rKinds[c.kind%len(rKinds)])
+				key = kp.Pub
+				vr = "plain-" + kp.Kind
+				if a["comment"] != "" {
+					key = verifh.Mint(wCA.Signer, verifh.CertSpec{Key: kp.Pub, KeyID: rndComment(r), ValidBefore: uint64(time.Now().Unix() + 3600)})
+					vr = "cert-" + kp.Kind
+				}
+			}
 			c.rec.set(sc)
 			if op == "ahc_s" {
 				cerr = cl.AddHardCert(key, cm)
@@ -688,7 +698,7 @@ func (c *rCtx) recOp(op string, a map[string]string) (lab rLabel, vr string) {
 				want = map[string][]byte{"key": key.Marshal(), "comment": {}}
 			}
 			if fail && cerr != nil && cerr.Error() != sc.err.Error() && !lab.Pan {
-				vr = "errtext-differs"
+				vr += "-errtext-differs"
 			}
 		case "listslots":
 			if !fail {
@@ -1215,7 +1225,11 @@ func TestVerifRpc(t *testing.T) {
 
 	var jobs []rGen
 	for i := range plan.Cases {
-		for r := 0; r < plan.Reps; r++ {
+		reps := plan.Reps
+		if (plan.Cases[i].Op == "ahc_s" || plan.Cases[i].Op == "ahc_l") && reps < len(rKinds) {
+			reps = len(rKinds) // every key type
+		}
+		for r := 0; r < reps; r++ {
 			c := plan.Cases[i]
 			jobs = append(jobs, rGen{Kind: "case", I: i, R: r, Seed: seed, Case: &c})
 		}
@@ -1297,7 +1311,7 @@ func TestVerifRpc(t *testing.T) {
 				switch g.Kind {
 				case "case":
 					r := verifh.NewRand("rpc-case", int64(g.I*1000+g.R))
-					c := &rCtx{r: r, rec: &recAgent{}}
+					c := &rCtx{r: r, rec: &recAgent{}, kind: g.R}
 					lab, vr := c.recOp(g.Case.Op, g.Case.A)
 					c.pair.close()
 					emit(g, fmt.Sprintf("c%d_%d", g.I, g.R), []step{{lab, vr, ""}}, "")
@@ -1328,7 +1342,7 @@ func TestVerifRpc(t *testing.T) {
 					h0 := ""
 					switch g.I % 3 {
 					case 0: // recording agent, one connection
-						c := &rCtx{r: r, rec: &recAgent{}}
+						c := &rCtx{r: r, rec: &recAgent{}, kind: -1}
 						for k := 0; k < g.HistLen; k++ {
 							op := opsAll[r.Intn(len(opsAll))]
 							a := map[string]string{}
